@@ -10,6 +10,15 @@ CHECKS = {
  "C02": dict(cat="exploration", tech="crash journal over child processes + marker round trip + rejected-xor-dispatched log oracle; exhaustive short strings, PRNG mutation",
    text="Stage A runs ParseLine and Text/Target/Public under recover on every string up to a length bound over the special-byte/verb-token alphabet and on PRNG mutations of well-formed lines; stage B feeds hostile probes (every built-in handler verb with odd parameters, raw bytes) through live connections in child processes, tracking on and off, and checks process survival, that a marker sent afterwards is answered, that following numbered lines arrive in order, and that each probe was either logged as rejected or dispatched exactly once. Held on the inputs explored; exhaustive only up to the stated length.",
    note="Trusted: the crash journal's attribution of a dead worker to the case in flight; a handler panic swallowed by cfg.Recover is by the statement not a violation.", ref="§4 C02"),
+ "C08": dict(cat="exploration", tech="per-call wire attribution by FIFO separators over an in-memory connection; CRLF/verb predicates on the raw bytes",
+   text="All 28 exported command methods are called with every argument position set to each of 22 hostile strings (CR, LF, CRLF + second command, NUL, 5000 bytes, ...) for 5 SplitLen values (enumerated completely), plus PRNG multi-hostile combinations; the bytes between separators must be CR/LF-free CRLF-terminated lines beginning with the method's verb. Exhaustive for the stated finite grid, sampling beyond it.",
+   note="Trusted: the in-memory net.Conn records exactly the bytes passed to Write; single issuing goroutine so separators attribute bytes to calls.", ref="§4 C08"),
+ "C09": dict(cat="exploration", tech="conservation + per-sender order oracle over the wire transcript under concurrent senders, scripted slow/bursty server, race detector, GOMAXPROCS sweep",
+   text="1..32 concurrent senders (user goroutines, parallel foreground and background handler invocations) issue uniquely numbered lines while the server end reads fast, per token or in bursts; the transcript must equal the issued multiset byte for byte with every sender's counters increasing. Held on the interleavings produced (evidence counts runs with interleaving and a full queue); schedules are sampled, not enumerated.",
+   note="Trusted: unique (sender,counter) ids make the history unambiguous; the harness keeps the connection up.", ref="§4 C09"),
+ "C11": dict(cat="exploration", tech="losslessness/bound predicates over the wire transcript; exhaustive small-alphabet texts + PRNG text classes",
+   text="Privmsg/Privmsgln/Privmsgf/Notice/Ctcp/CtcpReply/Action over 10 SplitLen values; every text over {a,space,.} of the stated lengths at SplitLen 13 exhaustively and PRNG texts up to 6000 bytes with separators placed around the cut point; each piece <= SplitLen, '...' on all but the last, no empty piece, exact reassembly, same target, one piece when it fits. Exhaustive for the small alphabet and lengths, sampling beyond.",
+   note="Trusted: consecutive calls use different targets so wire lines are attributed to calls by prefix.", ref="§4 C11"),
 }
 
 NOT_BUILT = "check not built yet in this round (planned, see DESIGN.md §4)"
